@@ -2,7 +2,7 @@
     Property theorems only; each is closed by [exact] of a lemma from DDBvProofs.v / DDProofs.v.
     M = DDModel.v / DDBvModel.v (hfiledd.c, bitvect.c as the code performs them), S = DDSpec.v (finite map). *)
 From Coq Require Import ZArith List Bool Permutation Lia.
-Require Import H4.gen.Gen_DD H4.DDBvModel H4.DDBvProofs H4.DDSpec H4.DDModel H4.DDProofs H4.DDInvProofs H4.DDEofModel H4.DDDynModel H4.DDDynProofs.
+Require Import H4.gen.Gen_DD H4.DDBvModel H4.DDBvProofs H4.DDSpec H4.DDModel H4.DDProofs H4.DDInvProofs H4.DDEofModel H4.DDDynModel H4.DDDynProofs H4.DDCloseModel.
 Import ListNotations.
 Local Open Scope Z_scope.
 
@@ -179,6 +179,14 @@ Theorem htpstart_eof_covers : forall bl, eof_covers (htpstart_end_off bl) bl = t
 Proof. exact htpstart_eof_covers_lemma. Qed.
 Print Assumptions htpstart_eof_covers.
 
+(** An Hclose that is refused because access elements are still attached (statement order regenerated from Hclose)
+    leaves the reference count as it was -- so the file record is not taken for a dead one (BADFREC), every later call
+    through the file id keeps working and the close can be repeated after Hendaccess -- and releases nothing. *)
+Theorem hclose_refused_keeps_file : forall rc, 0 < rc ->
+  hclose_refused_refcount rc = rc /\ badfrec (hclose_refused_refcount rc) = false /\ refusal_releases = false.
+Proof. exact hclose_refused_lemma. Qed.
+Print Assumptions hclose_refused_keeps_file.
+
 (** Deleting with caching off reaches the disk: after HTPdelete (steps in the order of the C source, see
     Gen_DD.HTPdelete_calls) the slot written through to the file carries DFTAG_NULL. *)
 Theorem delete_persists_uncached : forall st p st',
@@ -249,6 +257,8 @@ Proof.
   split; [|vm_compute; reflexivity].
   repeat (apply Forall_cons; [unfold op_ok, BV_TRUE, BV_FALSE; intuition (try discriminate; try lia)|]). apply Forall_nil.
 Qed.
+Example ex_refusal : refusal_segment = [1] /\ hclose_refused_refcount 1 = 1.
+Proof. split; reflexivity. Qed.
 Example ex_bv_wf : exists b, bv_new (-1) = Some b /\ bv_wf b.
 Proof. eexists. split; [reflexivity|]. exact (proj1 (bv_new_wf (-1) _ eq_refl)). Qed.
 Example ex_delete_uncached : m_cache ex_state = false /\ (exists st', htpdelete ex_state 1 = Some st').
